@@ -269,6 +269,12 @@ type Model struct {
 	InfMax int             // number of values a generator delivers before a fail-fast error ends it (−1: unbounded)
 	// number of input elements a sequential stage may consume at most (−1: all)
 	MaxConsumed int
+	// Free: elements whose fate the property leaves to the sequential stage's
+	// own choice and that are therefore not predicted here — what a Filter or
+	// Partition does with an element whose predicate *fails* (pred_fail). Such
+	// an element may come out on either side (or not at all, for Filter), but
+	// never twice.
+	Free []int
 }
 
 func failSet(p *driver.Plan) map[int]bool {
@@ -357,7 +363,11 @@ func modelOf0(p *driver.Plan) Model {
 	case "Filter":
 		for i, x := range in {
 			m.Calls = append(m.Calls, x)
-			if pred(p.Fn, p.FnArg, x) && !(p.X("pred_fail") == 1 && fails[i]) {
+			if p.X("pred_fail") == 1 && fails[i] {
+				m.Free = append(m.Free, x)
+				continue
+			}
+			if pred(p.Fn, p.FnArg, x) {
 				m.Out = append(m.Out, x)
 			}
 		}
@@ -380,8 +390,11 @@ func modelOf0(p *driver.Plan) Model {
 	case "Partition":
 		for i, x := range in {
 			m.Calls = append(m.Calls, x)
-			// a predicate that fails sends its element to the right, whatever it answered
-			if pred(p.Fn, p.FnArg, x) && !(p.X("pred_fail") == 1 && fails[i]) {
+			if p.X("pred_fail") == 1 && fails[i] {
+				m.Free = append(m.Free, x)
+				continue
+			}
+			if pred(p.Fn, p.FnArg, x) {
 				m.Out = append(m.Out, x)
 			} else {
 				m.Out2 = append(m.Out2, x)
@@ -748,6 +761,11 @@ func (s *Sys) onValue(name string, st *driver.Stream[int], want []int, i, v int)
 		for _, w := range want {
 			if w == v {
 				wantCnt++
+			}
+		}
+		for _, w := range s.M.Free {
+			if w == v {
+				wantCnt++ // may come out here (at most as often as it went in)
 			}
 		}
 		if cnt+1 > wantCnt {
